@@ -210,7 +210,18 @@ def conversions(chk, lab):
         fn_ = '%smapped_page_table::<impl core::convert::From<%s> for %sMapToError<structures::paging::page::%s>>::from' % (M, C, M, s)
         table.append((fn_, C, {'MappedToHugePage': 'ParentEntryHugePage', 'FrameAllocationFailed': 'FrameAllocationFailed'}))
     from .common import enum_val
+    # These enums and impls are private plumbing between the walker and the public errors; what they must achieve is decided end to end
+    # by the outcome tables above. The variant-by-variant rule below is an additional cross-check that applies only while the plumbing
+    # has the shape it has today (it is skipped, not failed, when a private name is gone).
     for fn_, src, mp in table:
+        if fn_ not in I.fn:
+            continue
+        try:
+            have = {v[0] for v in I.enum_variants({'k': 'adt', 'name': src, 'args': []})}
+        except Exception:
+            continue
+        if not set(mp) <= have:
+            continue
         for a, b in mp.items():
             def one(fn_=fn_, src=src, a=a, b=b):
                 o = I.run(fn_, [enum_val(I, src, a)])
